@@ -5,30 +5,33 @@ rendered by the TLA+ model (Render), checked again by the trace specification, a
 import os, random, json, binascii, re, concurrent.futures as cf
 import vlib
 
-T_NAMES = {13: "GROUP", 1: "PACKAGE", 2: "DIE", 7: "L3", 6: "L2", 5: "L1", 3: "CORE", 14: "NUMANODE"}
+T_NAMES = {13: "GROUP", 1: "PACKAGE", 2: "DIE", 7: "L3", 6: "L2", 5: "L1", 3: "CORE", 14: "NUMANODE", 10: "L1I", 11: "L2I", 12: "L3I"}
 FULL_ALPHABET = [13, 1, 2, 7, 6, 5, 3, 14]
-CACHE_T = {5, 6, 7}
+ICACHES = [10, 11, 12]
+CACHE_T = {5, 6, 7, 10, 11, 12}
+FLT_ALPHABET = [13, 1, 6, 10, 3, 14]      # Group, a type above the caches, a data cache, an instruction cache, Core, NUMA
+KIND_NAMES = {0: "all", 1: "none", 2: "structure", 3: "important"}
 
 
 def gen_module(c):
     return ("---- MODULE MC_Syn_gen ----\nEXTENDS MC_Synthetic\n"
-            "GAlphabet == {%s}\nGArities == {%s}\nGVariants == {%s}\nGIdxKinds == {%s}\nGPerturbs == {%s}\n====\n"
+            "GAlphabet == {%s}\nGArities == {%s}\nGVariants == {%s}\nGIdxKinds == {%s}\nGPerturbs == {%s}\nGLates == {%s}\n====\n"
             % (", ".join(T_NAMES[t] for t in c["alphabet"]), ", ".join(map(str, c["arities"])), ", ".join(map(str, c["variants"])),
-               ", ".join('"%s"' % k for k in c["idx"]), ", ".join('"%s"' % k for k in c["perturbs"])))
+               ", ".join('"%s"' % k for k in c["idx"]), ", ".join('"%s"' % k for k in c["perturbs"]), ", ".join("TRUE" if x else "FALSE" for x in c["lates"])))
 
 
 def cfg_text(c):
     return ("SPECIFICATION Spec\nCONSTANTS\n  Family = \"%s\"\n  Alphabet <- GAlphabet\n  MaxLv = %d\n  MinLv = %d\n  Arities <- GArities\n  MaxPU = %d\n"
             "  MaxGroups = %d\n  MaxAtt = %d\n  Style = %d\n  Deep = %d\n  Variants <- GVariants\n  IdxKinds <- GIdxKinds\n  Perturbs <- GPerturbs\n"
-            "  PermLv = %d\n  NStripes = %d\n  Stripe = %d\nINVARIANTS DescInv BuildInv ExportInv Emit\nCHECK_DEADLOCK FALSE\n"
-            % (c["family"], c["maxlv"], c["minlv"], c["maxpu"], c["maxgroups"], c["maxatt"], c["style"], c["deep"], c["permlv"], c["nstripes"], c["stripe"]))
+            "  PermLv = %d\n  MaxFlt = %d\n  Lates <- GLates\n  NStripes = %d\n  Stripe = %d\nINVARIANTS DescInv BuildInv ExportInv Emit\nCHECK_DEADLOCK FALSE\n"
+            % (c["family"], c["maxlv"], c["minlv"], c["maxpu"], c["maxgroups"], c["maxatt"], c["style"], c["deep"], c["permlv"], c["maxflt"], c["nstripes"], c["stripe"]))
 
 
 def job(tag, family="typed", alphabet=FULL_ALPHABET, maxlv=2, minlv=0, arities=(1, 2), maxpu=8, maxgroups=1, maxatt=2, style=1, deep=0,
-        variants=(0, 3), idx=("none", "list", "types", "loops"), perturbs=("none", "cpu", "node"), permlv=0, nstripes=1, stripe=0,
+        variants=(0, 3), idx=("none", "list", "types", "loops"), perturbs=("none", "cpu", "node"), permlv=0, nstripes=1, stripe=0, maxflt=0, lates=(False,), keep=False,
         simulate=None, depth=None, workers=4, timeout=1500):
     return dict(tag=tag, family=family, alphabet=list(alphabet), maxlv=maxlv, minlv=minlv, arities=list(arities), maxpu=maxpu, maxgroups=maxgroups,
-                maxatt=maxatt, style=style, deep=deep, variants=list(variants), idx=list(idx), perturbs=list(perturbs), permlv=permlv,
+                maxatt=maxatt, style=style, deep=deep, variants=list(variants), idx=list(idx), perturbs=list(perturbs), permlv=permlv, maxflt=maxflt, lates=list(lates), keep=keep,
                 nstripes=nstripes, stripe=stripe, simulate=simulate, depth=depth, workers=workers, timeout=timeout)
 
 
@@ -40,6 +43,7 @@ def run_job(ctx, c):
     res = []
     for h in vlib.tlc_printed(out, "BEH"):
         h["deep"] = c["deep"]
+        h["keep"] = c["keep"] or c["deep"] > 0
         res.append(h)
     return res
 
@@ -90,6 +94,15 @@ def features(items):
         if has_cache(d):
             inc("cache_level")
         inc("perturb_" + (it["pert"][0] if it["pert"] else "none"))
+        for T, k in it.get("flt", []):
+            hit = [L for L in lv[:-1] if L["T"] == T]
+            inc("filter_%s_%s" % ("group" if T == 13 else "icache" if T in ICACHES else "refused" if T in (4, 14) or (T, k) == (13, 0) else "level", KIND_NAMES[k]))
+            if k == 1 and any(L["att"] for L in hit):
+                inc("filter_none_on_level_with_attached_numa")
+        if not it.get("flt") and any(L["T"] in ICACHES and L["att"] for L in lv):
+            inc("default_filter_icache_level_with_attached_numa")
+        if it.get("late"):
+            inc("filter_after_set_synthetic")
     return f
 
 
@@ -99,7 +112,9 @@ def model_behaviours(item, k):
     d, text, pert = item["d"], item["text"], item["pert"]
     deep = item.get("deep", 0) > 0
     dj = json.dumps(d, separators=(",", ":"))
-    head = ["reset", "d " + dj, "set x" + hexs(text.encode("latin1"))]
+    fl = ["filter %d %d" % (T, kd) for T, kd in item.get("flt", [])]
+    setl = ["set x" + hexs(text.encode("latin1"))]
+    head = ["reset", "d " + dj] + (setl + fl if item.get("late") else fl + setl)
     allset = set(range(16)) if deep else {(k * 5 + j * 3) % 16 for j in range(4)}
     maxsizes = 48 if deep else 0
 
@@ -296,10 +311,15 @@ def jobs_for(tier, seed):
     style = seed % 3 + 1
     J = []
     deep_kw = dict(arities=(1, 2), maxpu=4, maxatt=1, perturbs=("none",))
+    flt_kw = dict(alphabet=FULL_ALPHABET + ICACHES, maxflt=2, lates=(False, True))
     if tier == "quick":
         J.append(job("core1", maxlv=1, arities=(1, 2, 3), maxpu=9, maxatt=2, style=style, permlv=1, nstripes=8, stripe=seed % 8, workers=4))
-        J.append(job("sim2", maxlv=2, minlv=1, arities=(1, 2, 3), maxpu=12, maxatt=3, style=style % 3 + 1, variants=(0, 1, 2, 3), workers=2, simulate="num=350", depth=12))
-        J.append(job("sim3", maxlv=3, minlv=2, arities=(1, 2, 3), maxpu=12, maxatt=3, style=(style + 1) % 3 + 1, variants=(0, 1, 2, 3), workers=2, simulate="num=400", depth=12))
+        J.append(job("sim2", maxlv=2, minlv=1, arities=(1, 2, 3), maxpu=12, maxatt=3, style=style % 3 + 1, variants=(0, 1, 2, 3), workers=2, simulate="num=350", depth=14, alphabet=FULL_ALPHABET + ICACHES))
+        J.append(job("sim3", maxlv=3, minlv=2, arities=(1, 2, 3), maxpu=12, maxatt=3, style=(style + 1) % 3 + 1, variants=(0, 1, 2, 3), workers=2, simulate="num=400", depth=14, alphabet=FULL_ALPHABET + ICACHES))
+        J.append(job("simf", maxlv=3, minlv=1, arities=(1, 2, 3), maxpu=12, maxatt=3, style=style, variants=(0, 1, 2, 3), workers=1, simulate="num=150", depth=14, **flt_kw))
+        # every filter class of every two-level description over one representative of each kind of level type
+        J.append(job("flt2", maxlv=2, arities=(1, 2), maxpu=4, maxatt=1, style=style, idx=("none",), perturbs=("none",), alphabet=FLT_ALPHABET, maxflt=1, keep=True,
+                     nstripes=6, stripe=seed % 6, workers=2))
         J.append(job("simu", family="untyped", maxlv=4, minlv=1, arities=(1, 2, 3), maxpu=24, maxatt=2, variants=(0,), idx=("none", "list", "loops"),
                      perturbs=("none", "cpu"), workers=1, simulate="num=200", depth=12))
         for k in (124, 125, 126):
@@ -311,8 +331,11 @@ def jobs_for(tier, seed):
         J.append(job("typed3", maxlv=3, arities=(1, 2), maxpu=8, maxatt=2, style=(style + 1) % 3 + 1, idx=("none", "types", "loops"), perturbs=("none",),
                      alphabet=[13, 1, 6, 3, 14], nstripes=8, stripe=seed % 8, workers=6, timeout=3000))
         J.append(job("untyped", family="untyped", maxlv=4, arities=(1, 2), maxpu=16, maxatt=1, variants=(0,), idx=("none", "list", "loops"), perturbs=("none",), workers=2))
-        J.append(job("sim3", maxlv=3, minlv=2, arities=(1, 2, 3), maxpu=18, maxatt=3, style=style, variants=(0, 1, 2, 3), workers=4, simulate="num=1000", depth=12))
-        J.append(job("sim4", maxlv=4, minlv=3, arities=(1, 2, 3), maxpu=24, maxatt=3, maxgroups=2, style=style % 3 + 1, variants=(0, 1, 2, 3), workers=4, simulate="num=500", depth=12))
+        J.append(job("sim3", maxlv=3, minlv=2, arities=(1, 2, 3), maxpu=18, maxatt=3, style=style, variants=(0, 1, 2, 3), workers=4, simulate="num=1000", depth=14, alphabet=FULL_ALPHABET + ICACHES))
+        J.append(job("sim4", maxlv=4, minlv=3, arities=(1, 2, 3), maxpu=24, maxatt=3, maxgroups=2, style=style % 3 + 1, variants=(0, 1, 2, 3), workers=4, simulate="num=500", depth=16, alphabet=FULL_ALPHABET + ICACHES))
+        J.append(job("simf", maxlv=3, minlv=1, arities=(1, 2, 3), maxpu=18, maxatt=3, style=style, variants=(0, 1, 2, 3), workers=2, simulate="num=600", depth=14, **flt_kw))
+        J.append(job("flt2", maxlv=2, arities=(1, 2), maxpu=4, maxatt=2, style=style, idx=("none", "list"), perturbs=("none",), alphabet=FLT_ALPHABET + [2, 12], maxflt=1,
+                     lates=(False, True), keep=True, workers=4, timeout=3000))
         J.append(job("simu", family="untyped", maxlv=4, minlv=1, arities=(1, 2, 3), maxpu=24, maxatt=2, variants=(0,), idx=("none", "list", "loops"),
                      perturbs=("none", "cpu"), workers=2, simulate="num=500", depth=12))
         for k in range(120, 130):
@@ -357,15 +380,15 @@ def run(ctx, replay=None):
     # the model families overlap (the same description may come from two jobs): replay each once
     seen, uniq = set(), []
     for it in items:
-        key = (it["text"], json.dumps(it["pert"]))
+        key = (it["text"], json.dumps(it["pert"]), json.dumps(it.get("flt", [])), it.get("late", False))
         if key not in seen:
             seen.add(key)
             uniq.append(it)
     items = uniq
-    cap = 50000 if thorough else 4000
+    cap = 50000 if thorough else 3700
     if len(items) > cap:
-        deep = [it for it in items if it.get("deep")]
-        rest = [it for it in items if not it.get("deep")]
+        deep = [it for it in items if it.get("keep")]
+        rest = [it for it in items if not it.get("keep")]
         rng.shuffle(rest)
         items = deep + rest[:max(0, cap - len(deep))]
         ctx.notes.append("model behaviours capped at %d (seeded sample of the striped enumeration; the boundary family is kept whole)" % cap)
